@@ -6,7 +6,7 @@ use crate::wal::config::{MAX_BATCH_ENTRIES, PREFIX_META_SIZE, checksum64, debug_
 use std::io;
 use std::sync::{Arc, RwLock};
 
-use rkyv::{AlignedVec, Deserialize};
+use rkyv::AlignedVec;
 use tracing::info;
 
 #[cfg(target_os = "linux")]
@@ -565,8 +565,7 @@ impl Walrus {
                     // Decode metadata to get read_size
                     let mut aligned = AlignedVec::with_capacity(meta_len);
                     aligned.extend_from_slice(&meta_buf[2..2 + meta_len]);
-                    let archived = unsafe { rkyv::archived_root::<Metadata>(&aligned[..]) };
-                    let meta: Metadata = match archived.deserialize(&mut rkyv::Infallible) {
+                    let meta: Metadata = match crate::wal::block::checked_metadata(&aligned[..]).ok_or(()) {
                         Ok(m) => m,
                         Err(_) => {
                             info!(
@@ -780,10 +779,8 @@ impl Walrus {
                     if meta_len > 0 && meta_len <= PREFIX_META_SIZE - 2 {
                         let mut aligned_peek_meta = AlignedVec::with_capacity(meta_len);
                         aligned_peek_meta.extend_from_slice(&meta_buf[2..2 + meta_len]);
-                        let archived_peek_meta =
-                            unsafe { rkyv::archived_root::<Metadata>(&aligned_peek_meta[..]) };
-                        let meta_res: Result<Metadata, _> =
-                            archived_peek_meta.deserialize(&mut rkyv::Infallible);
+                        let meta_res: Result<Metadata, ()> =
+                            crate::wal::block::checked_metadata(&aligned_peek_meta[..]).ok_or(());
                         match meta_res {
                             Ok(meta) => {
                                 let size1 = meta.read_size;
@@ -806,16 +803,13 @@ impl Walrus {
                                             let mut aligned2 = AlignedVec::with_capacity(meta_len2);
                                             aligned2
                                                 .extend_from_slice(&meta_buf2[2..2 + meta_len2]);
-                                            let archived2 = unsafe {
-                                                rkyv::archived_root::<Metadata>(&aligned2[..])
-                                            };
-                                            let meta2_res: Result<Metadata, _> =
-                                                archived2.deserialize(&mut rkyv::Infallible);
-                                            let meta2 = meta2_res
-                                                .expect("infallible metadata deserialize");
-                                            let size2 = meta2.read_size;
-                                            let required2 = (PREFIX_META_SIZE + size2) as u64;
-                                            final_required = required1 + required2;
+                                            if let Some(meta2) =
+                                                crate::wal::block::checked_metadata(&aligned2[..])
+                                            {
+                                                let size2 = meta2.read_size;
+                                                let required2 = (PREFIX_META_SIZE + size2) as u64;
+                                                final_required = required1 + required2;
+                                            }
                                         }
                                     }
                                 }
@@ -892,8 +886,7 @@ impl Walrus {
 
                         let mut aligned = AlignedVec::with_capacity(meta_len);
                         aligned.extend_from_slice(&meta_buf[2..2 + meta_len]);
-                        let archived = unsafe { rkyv::archived_root::<Metadata>(&aligned[..]) };
-                        let meta: Metadata = match archived.deserialize(&mut rkyv::Infallible) {
+                        let meta: Metadata = match crate::wal::block::checked_metadata(&aligned[..]).ok_or(()) {
                             Ok(m) => m,
                             Err(_) => break,
                         };
@@ -1107,8 +1100,7 @@ impl Walrus {
                 let mut aligned = AlignedVec::with_capacity(meta_len);
                 aligned.extend_from_slice(&buffer[buf_offset + 2..buf_offset + 2 + meta_len]);
 
-                let archived = unsafe { rkyv::archived_root::<Metadata>(&aligned[..]) };
-                let meta: Metadata = match archived.deserialize(&mut rkyv::Infallible) {
+                let meta: Metadata = match crate::wal::block::checked_metadata(&aligned[..]).ok_or(()) {
                     Ok(m) => m,
                     Err(_) => {
                         break; // Parse error - stop
